@@ -188,6 +188,23 @@ func cmdObserve(args []string) {
 	fmt.Fprintf(&b, "/-- (signing, crypto) pairs for which `ReadDestination` accepts a well-formed KEY-certificate identity -/\ndef destAccepted : List (Nat × Nat) := [%s]\n\n", strings.Join(destOK, ", "))
 	fmt.Fprintf(&b, "/-- the same for `ReadRouterIdentity` -/\ndef ridAccepted : List (Nat × Nat) := [%s]\n\n", strings.Join(ridOK, ", "))
 	fmt.Fprintf(&b, "/-- certificate type bytes `NewCertificateWithType` accepts -/\ndef certTypesAccepted : List Nat := [%s]\n\n", strings.Join(certTypes, ", "))
+	// zero values: every (type, exported argument-free method) pair called on the zero value
+	var zrows, zpanics, zverify []string
+	for _, n := range zeroTypeNames() {
+		v := zeroValues[n]()
+		cnt, ps := callAllMethods(v)
+		parts := strings.SplitN(n, ".", 2)
+		zrows = append(zrows, fmt.Sprintf("(%s, %s, %d)", leanQuote(parts[0]), leanQuote(parts[1]), cnt))
+		for _, p := range ps {
+			zpanics = append(zpanics, fmt.Sprintf("(%s, %s)", leanQuote(n), leanQuote(strings.SplitN(p, ":", 2)[0])))
+		}
+		if has, success := verifySucceeds(zeroValues[n]()); has && success {
+			zverify = append(zverify, leanQuote(n))
+		}
+	}
+	fmt.Fprintf(&b, "/-- (package, type, number of exported argument-free methods called on the zero value) -/\ndef zeroTypes : List (String × String × Nat) := [%s]\n\n", strings.Join(zrows, ", "))
+	fmt.Fprintf(&b, "/-- (type, method) pairs that panicked on the zero value (must be empty) -/\ndef zeroPanics : List (String × String) := [%s]\n\n", strings.Join(zpanics, ", "))
+	fmt.Fprintf(&b, "/-- types whose Verify/VerifySignature reports success on the zero value (must be empty) -/\ndef zeroVerifySuccess : List String := [%s]\n\n", strings.Join(zverify, ", "))
 	var ms []string
 	for _, m := range markers {
 		ms = append(ms, leanQuote(m))
